@@ -127,4 +127,113 @@ theorem nested_repeat_elem (opens rest : List Kvs) (q : Kvs) (i : Nat) (st : Lis
   rw [buildElemsR, ht]
   simp only [he, hb, hk, hrest, Bool.false_eq_true, if_false]
 
+/-- **effective_text for labels of elements in sheets with repeats** (questions at any depth below repeats, and the repeats
+and groups themselves): if the grouped rows are what `process_row` makes of the raw rows and `buildElemsR` builds the
+elements, then every element `e` is the element of one raw row `j` (its key is `s<j>`), and — xpaths being pairwise
+distinct — whenever that row's label became a dict, `e` shows in every language exactly the spec's reading of *that row's*
+label cells (the cell suffixed with the language, else the unsuffixed one for the default language), else `-`. -/
+theorem effective_label_in_repeat (dl : Str) (hk : List (Str × List Str)) (raws : List (List (Str × Str)))
+    (grows : List Kvs) (cs : List Choice) (es : List Elem) (padIds : List Str) (e : Elem)
+    (hrows : ∀ (j : Nat) (out : Kvs), grows[j]? = some out → ∃ raw, raws[j]? = some raw ∧ processRow dl hk raw = .ok out)
+    (hbuild : buildElemsR grows 0 [] = .ok es) (he : e ∈ es)
+    (hpaths : (es.map (·.path)).Nodup)
+    (hmedia : ∀ x ∈ es.flatMap (mediaEntries dl), x.form ≠ s "long") :
+    ∃ (j : Nat) (raw : List (Str × Str)) (out : Kvs), raws[j]? = some raw ∧ processRow dl hk raw = .ok out ∧ e.key = s "s" ++ natStr j ∧
+      e.label = out.get (s "label") ∧
+      ∀ (m : Kvs) (lang : Str), out.get (s "label") = .dict m →
+        (∀ c ∈ raw, c.1 ≠ "__row".toList ∧ ∃ t ts, lookup c.1 hk = some (t :: ts)) →
+        NoClash dl hk .nil raw →
+        (∀ c ∈ raw, ∀ t ts, lookup c.1 hk = some (t :: ts) → s "label" = t → ts.length ≤ 1) →
+        (∀ c ∈ colCells hk (s "label") raw, c.2 ≠ []) → ((colCells hk (s "label") raw).map (·.1)).Nodup →
+        lang ≠ [] →
+        via (table dl ⟨es, cs⟩) padIds (labelSrc e) (s "long") lang =
+          some ((specRead dl (colCells hk (s "label") raw) lang).getD (s "-")) := by
+  obtain ⟨j, out, hj, hkey, hf⟩ := buildElemsR_slots grows 0 [] es hbuild e he
+  obtain ⟨raw, hraw, hproc⟩ := hrows j out hj
+  refine ⟨j, raw, out, hraw, hproc, by simpa using hkey, hf.1, ?_⟩
+  intro m lang hdict hwf hnc hflat hne hnd hlang
+  exact effective_text_label_row dl ⟨es, cs⟩ padIds e hk raw out m lang he hpaths hmedia hwf hnc hflat hproc hf.1 hdict
+    hne hnd hlang
+
+/-! ### non-vacuity: a question below two nested repeats -/
+
+def kv (ps : List (String × String)) : Kvs :=
+  ps.foldr (fun p acc => .cons p.1.toList (.str p.2.toList) acc) .nil
+
+def repA : Kvs := kv [("type", "begin repeat"), ("name", "a")]
+def repB : Kvs := .cons "type".toList (.str "begin repeat".toList) (.cons "name".toList (.str "b".toList)
+  (.cons "label".toList (.dict (.cons "fr".toList (.str "Bfr".toList) .nil)) .nil))
+def qRow : Kvs := .cons "type".toList (.str "text".toList) (.cons "name".toList (.str "q".toList)
+  (.cons "label".toList (.dict (.cons "fr".toList (.str "Qfr".toList) .nil)) .nil))
+def endRow : Kvs := kv [("type", "end repeat")]
+
+theorem repA_open : IsOpen repA := ⟨"begin repeat".toList, rfl, by decide, by decide⟩
+theorem repB_open : IsOpen repB := ⟨"begin repeat".toList, rfl, by decide, by decide⟩
+
+/-- the question below repeats `a`, `b` gets `/data/a/b/q`, key `s2`, and its own row's label -/
+example : ∃ e, buildElemsR ([repA, repB] ++ qRow :: [endRow, endRow]) 0 [] = .ok (openElems [repA, repB] 0 [] ++ e :: []) ∧
+    e.key = "s2".toList ∧ FromRow qRow e ∧ e.path = "/data/a/b/q".toList := by
+  obtain ⟨e, h1, h2, h3, h4⟩ := nested_repeat_elem [repA, repB] [endRow, endRow] qRow 0 [] [] "text".toList .question
+    (by intro r hr; simp only [List.mem_cons, List.mem_nil_iff, or_false] at hr; rcases hr with rfl | rfl
+        · exact repA_open
+        · exact repB_open)
+    rfl (by decide) (by decide) (by rfl) (by rfl)
+  exact ⟨e, h1, h2, h3, by rw [h4]; decide⟩
+
+example : ∀ e ∈ openElems [repA, repB] 0 [] ++ [mkElem qRow 2 ["a".toList, "b".toList] .question],
+    ∃ (j : Nat) (row : Kvs), ([repA, repB, qRow, endRow, endRow])[j]? = some row ∧ e.key = s "s" ++ natStr (0 + j) ∧ FromRow row e :=
+  buildElemsR_slots _ 0 [] _ (by rfl)
+
+example : buildElemsR [kv [("type", "text"), ("name", "q")]] 0 [] = buildElems [kv [("type", "text"), ("name", "q")]] 0 [] := by
+  apply buildElemsR_conservative
+  intro row hr t ht
+  simp only [List.mem_cons, List.mem_nil_iff, or_false] at hr
+  subst hr
+  have : t = "text".toList := by
+    have h : (kv [("type", "text"), ("name", "q")]).get (s "type") = .str "text".toList := by rfl
+    rw [h] at ht; cases ht; rfl
+  subst this
+  decide
+
+example : buildElemsR ([repA, repB] ++ [endRow, endRow]) 0 [] = .ok (openElems [repA, repB] 0 [] ++ []) :=
+  buildElemsR_descend [repA, repB] [endRow, endRow] 0 [] []
+    (by intro r hr; simp only [List.mem_cons, List.mem_nil_iff, or_false] at hr; rcases hr with rfl | rfl
+        · exact repA_open
+        · exact repB_open)
+    (by rfl)
+
+/-! non-vacuity of `effective_label_in_repeat`: the F19 row (`label::fr = Qfr`, `label = Q`) as a question inside a repeat -/
+
+def hk2 : List (Str × List Str) := [("type".toList, ["type".toList]), ("name".toList, ["name".toList])] ++ hkEx
+def rawsEx : List (List (Str × Str)) :=
+  [[("type".toList, "begin repeat".toList), ("name".toList, "a".toList)],
+   [("type".toList, "text".toList), ("name".toList, "q".toList)] ++ rowEx,
+   [("type".toList, "end repeat".toList)]]
+def outOf (raw : List (Str × Str)) : Kvs :=
+  match processRow "default".toList hk2 raw with
+  | .ok o => o
+  | .error _ => .nil
+def growsEx : List Kvs := rawsEx.map outOf
+def esEx : List Elem :=
+  match buildElemsR growsEx 0 [] with
+  | .ok es => es
+  | .error _ => []
+def eEx : Elem := mkElem (outOf ([("type".toList, "text".toList), ("name".toList, "q".toList)] ++ rowEx)) 1 ["a".toList] .question
+
+example : True := by
+  have _h := effective_label_in_repeat "default".toList hk2 rawsEx growsEx [] esEx [] eEx ?_ ?_ ?_ ?_ ?_
+  · trivial
+  · intro j out h
+    match j, h with
+    | 0, h => exact ⟨_, rfl, by simp only [growsEx, rawsEx, List.map_cons, List.getElem?_cons_zero, Option.some.injEq] at h; rw [← h]; rfl⟩
+    | 1, h => exact ⟨_, rfl, by simp only [growsEx, rawsEx, List.map_cons, List.getElem?_cons_succ, List.getElem?_cons_zero, Option.some.injEq] at h; rw [← h]; rfl⟩
+    | 2, h => exact ⟨_, rfl, by simp only [growsEx, rawsEx, List.map_cons, List.getElem?_cons_succ, List.getElem?_cons_zero, Option.some.injEq] at h; rw [← h]; rfl⟩
+    | j + 3, h => simp [growsEx, rawsEx] at h
+  · rfl
+  · have : esEx = [mkElem (outOf rawsEx[0]) 0 [] .group, eEx] := by rfl
+    rw [this]; simp
+  · decide
+  · have : esEx.flatMap (mediaEntries "default".toList) = [] := by rfl
+    rw [this]; simp
+
 end Pyxv.C08
